@@ -148,6 +148,11 @@ C13_Full(ev) ==
 \* CRYPT_GENSALT_OUTPUT_SIZE always suffices for up to 64 random bytes: never ERANGE there
 C13_Enough(ev) ==
   (Size(ev) >= G!GENSALT_OUTPUT_SIZE /\ (ev.rbnull = 1 \/ ev.nrbytes <= 64)) => (Success(ev) \/ ev.errno # G!ERANGE)
+\* ERANGE means "buffer too small": it is not the answer when the setting the exact model computes for this request
+\* fits into the buffer that was given
+C13_RangeMeansSmall(ev) ==
+  (~Success(ev) /\ ev.errno = G!ERANGE /\ WellFormed(ev) /\ Evaluable(ev) /\ Size(ev) >= 3)
+  => LET mo == Model(ev) IN ~mo.ok
 \* ---- C09: drawn entropy is erased; C08/C04: statics ---------------------
 C09_Erased(ev, m) == (ev.rbnull = 1 /\ m # "none" /\ ev.entcalls >= 1) => (ev.wipes >= 1 /\ ev.wiped >= G!AutoBytes[m] /\ ev.stackhits = 0)
 AllowedSW(ev) == IF ev.e \in {"gensalt", "xgensalt"} THEN {"output.0"} ELSE {}
@@ -195,6 +200,7 @@ JudgeGs(ev) ==
      \cup Chk(C12_TooShort(ev, m), "C12", "TooShort") \cup Chk(C12_NoAutoEntropy(ev), "C12", "NoAutoEntropy")
      \cup Chk(C13_Local(ev), "C13", "Local") \cup Chk(C13_Monotone(ev), "C13", "Monotone")
      \cup Chk(C13_Full(ev), "C13", "Full") \cup Chk(C13_Enough(ev), "C13", "Enough")
+     \cup Chk(C13_RangeMeansSmall(ev), "C13", "RangeMeansSmall")
      \cup Chk(C04_Statics(ev), "C08", "Statics") \cup Chk(C14_RA(ev), "C14", "GensaltRA"),
    div |-> IF ev.fresh = 1 \/ ~Evaluable(ev) \/ (m # "none" /\ ~C10_Safe(ev, m)) \/ ModelAgrees(ev, Model(ev)) THEN {} ELSE {[l |-> l, d |-> "gensalt-model"]}]
 
